@@ -179,6 +179,17 @@ def perturbations():
                 msg.channel = 15
                 msg.time = 99
         mm.meta_charset          # noqa: B018 (touch only)
+        # every message type once more: the list bytes() returns is the caller's (buf = a.bytes(); buf += b.bytes())
+        from .ref import midi1 as _m1
+        for t in _m1.TYPES:
+            msg = mido.Message(t)
+            buf = msg.bytes()
+            buf += mido.Message('note_on', note=60, velocity=64).bytes()
+            del buf[:1]
+            ba = msg.bin()
+            ba += b'\x01\x02'
+            hx = msg.hex()
+            del hx
 
     out = [
         ('caller edits helper results', poke_helper_results),
